@@ -29,10 +29,11 @@ def sym(n):
 
 class TV:
     """tensor value"""
-    __slots__ = ('shape', 'dom', 'mask', 'key')
+    __slots__ = ('shape', 'dom', 'mask', 'key', 'contr')
 
-    def __init__(self, shape, dom=None, mask=False, key=None):
+    def __init__(self, shape, dom=None, mask=False, key=None, contr=frozenset()):
         self.shape, self.dom, self.mask, self.key = tuple(shape), dom, mask, key
+        self.contr = frozenset(contr)      # dimension symbols that were summed over (contracted) to obtain this value
 
     def rank_known(self):
         return not (self.shape and self.shape[0][0] == 'batch')
@@ -352,7 +353,10 @@ class Interp:
         if isinstance(e, ast.Subscript):
             base = self.ev(e.value, env)
             if isinstance(base, TV):
-                return self.index(e, base, e.slice, env)
+                r_ = self.index(e, base, e.slice, env)
+                if isinstance(r_, TV) and base.contr:
+                    r_.contr = base.contr
+                return r_
             if isinstance(base, SizeV):
                 return self.size_index(base, e.slice, env)
             if isinstance(base, TupV):
@@ -380,7 +384,7 @@ class Interp:
                 doms = [t.dom for t in (l, r) if t.dom is not None and '~grouped:' in str(t.dom[1])]
                 if len(doms) == 1:
                     return TV(sh, dom=doms[0])      # offset inside a group + start of the group: still a position in the grouped axis
-            return TV(sh)
+            return TV(sh, contr=l.contr | r.contr)
         if isinstance(l, TV) or isinstance(r, TV):
             t, o = (l, r) if isinstance(l, TV) else (r, l)
             if isinstance(op, ast.MatMult):
@@ -424,7 +428,7 @@ class Interp:
             b = broadcast(l.shape[:-2], r.shape[:-2])
             if b is None:
                 return TOP
-            return TV(b + (l.shape[-2], r.shape[-1]))
+            return TV(b + (l.shape[-2], r.shape[-1]), contr=l.contr | r.contr | {l.shape[-1]})
         return TOP
 
     def to_size(self, v):
@@ -670,6 +674,10 @@ class Interp:
             if name == 'where' and len(c.args) == 3:
                 a, b = self.ev(c.args[1], env), self.ev(c.args[2], env)
                 return a if isinstance(a, TV) else b
+            if name == 'einsum' and c.args and isinstance(c.args[0], ast.Constant) and isinstance(c.args[0].value, str):
+                r_ = self.einsum(c.args[0].value, [self.ev(a, env) for a in c.args[1:]])
+                if r_ is not None:
+                    return r_
             if name in ('einsum', 'block_diag', 'svd', 'eig', 'det', 'inverse', 'solve', 'pinv'):
                 if name == 'eig' and c.args:
                     v = self.ev(c.args[0], env)
@@ -739,6 +747,35 @@ class Interp:
                 return TOP
         self.unknown += 1
         return TOP
+
+    def einsum(self, spec, ops):
+        spec = spec.replace(' ', '')
+        if '->' not in spec:
+            return None
+        ins, out = spec.split('->')
+        ins = ins.split(',')
+        if len(ins) != len(ops) or not all(isinstance(o, TV) for o in ops):
+            return None
+        letter = {}
+        batch = ()
+        contr = frozenset()
+        for sp, o in zip(ins, ops):
+            contr |= o.contr
+            core = sp.replace('...', '')
+            if len(core) > len([d for d in o.shape if d[0] != 'batch']):
+                return None
+            dims = o.shape[len(o.shape) - len(core):] if core else ()
+            for ch, d in zip(core, dims):
+                letter.setdefault(ch, d)
+            if '...' in sp:
+                b = o.shape[:len(o.shape) - len(core)]
+                batch = broadcast(batch, b) or batch
+        ocore = out.replace('...', '')
+        if any(ch not in letter for ch in ocore):
+            return None
+        shape = (tuple(batch) if '...' in out else ()) + tuple(letter[ch] for ch in ocore)
+        contracted = {letter[ch] for ch in letter if ch not in ocore}
+        return TV(shape, contr=contr | contracted)
 
     def size_from_args(self, args, env):
         if len(args) == 1:
@@ -872,7 +909,7 @@ class Interp:
             sh[a] = lit(1)
         else:
             del sh[a]
-        vals = TV(sh)
+        vals = TV(sh, contr=recv.contr | {d0})
         idx = TV(sh, dom=d0 if d0[0] == 'sym' else None)
         if both:
             return TupV([vals, idx])
@@ -929,7 +966,7 @@ class Interp:
                     return TOP
                 pos = i
             sh.insert(pos, lit(1))
-            return TV(sh, recv.dom, recv.mask, recv.key)
+            return TV(sh, recv.dom, recv.mask, recv.key, recv.contr)
         if m == 'squeeze':
             if not args:
                 return TV([d0 for d0 in recv.shape if d0 != lit(1)], recv.dom, recv.mask, recv.key)
